@@ -27,6 +27,8 @@ from . import repo
 
 VERIF = os.path.dirname(os.path.dirname(os.path.dirname(os.path.abspath(__file__))))
 MAX_VIOL_PER_SHARD = 40
+MAX_REPLAYED_KEYS = 8          # determinism replays (two fresh processes each) are done for the first few violation keys of a run
+MAX_REPLAY_SECONDS = 120
 MAX_SAMPLES = 6
 
 
@@ -232,6 +234,7 @@ def run_check(cid, tier, jobs=None):
     lines = []
     outdir = os.environ.get("VERIF_EVIDENCE_DIR") or VERIF   # scratch runs (mutants) must not touch /verif/evidence
     os.makedirs(os.path.join(outdir, "replays"), exist_ok=True)
+    replayed, t_replay0 = 0, time.time()
     for key, vs in unknown:
         v = min(vs, key=lambda v: len(json.dumps(jsonable(v["case"]))))
         case = jsonable(v["case"])
@@ -239,7 +242,10 @@ def run_check(cid, tier, jobs=None):
         # (exit 1 + VIOLATION line); a replay that raises or does not reproduce is recorded in the replay file and
         # flagged, it never turns a detection into a harness error.
         replay_status = "reproduced-twice"
-        for _ in range(2):
+        replayed += 1
+        if replayed > MAX_REPLAYED_KEYS or time.time() - t_replay0 > MAX_REPLAY_SECONDS:
+            replay_status = "not-replayed (only the first violations of a run are replayed automatically; use --replay)"
+        for _ in range(2 if replay_status == "reproduced-twice" else 0):
             try:
                 again = _replay_isolated(cid, json.loads(json.dumps(case)))
             except BaseException:
@@ -248,7 +254,7 @@ def run_check(cid, tier, jobs=None):
                 break
             if not any(a["key"] == key for a in again):
                 replay_status = "not-reproduced-in-isolation"
-        if replay_status != "reproduced-twice":
+        if replay_status not in ("reproduced-twice",) and not replay_status.startswith("not-replayed"):
             print(f"NOTE: violation {key}: {replay_status} (it was observed in the exploration run and is reported regardless)")
         h = hashlib.sha1(json.dumps([key, case], sort_keys=True).encode()).hexdigest()[:10]
         path = os.path.join(outdir, "replays", f"{cid}-{h}.json")
